@@ -111,6 +111,12 @@ func runOne(seed int64, mode string) (msg string) {
 	case "lang", "lang-sub0":
 		td.Languages = map[string]bool{"c": true, "go": true}
 	}
+	// FailOnMissingSubmodules: a submodule entry is a placeholder only if .gitmodules lists it; an unlisted one is an error
+	strict := mode == "none" && rng.Intn(4) == 0
+	if strict {
+		bc.FailOnMissingSubmodules = true
+		files[".gitmodules"] = fent{data: []byte("[submodule \"sm\"]\n\tpath = sm\n\turl = https://example.com/sm\n"), mode: filemode.Regular}
+	}
 	td.Initialize(repo)
 	bc.Initialize(repo)
 	base := time.Date(2020, 1, 1, 0, 0, 0, 0, time.UTC)
@@ -172,6 +178,26 @@ func runOne(seed int64, mode string) (msg string) {
 		changes := r1[items.DependencyTreeChanges].(object.Changes)
 		deps[items.DependencyTreeChanges] = changes
 		r2, err := bc.Consume(deps)
+		if strict {
+			mustErr, mayErr := false, false
+			for _, ch := range changes {
+				if ch.To.Name == "dir/sm2" && ch.To.TreeEntry.Mode == filemode.Submodule {
+					mustErr, mayErr = true, true
+				}
+				if ch.From.Name == "dir/sm2" && ch.From.TreeEntry.Mode == filemode.Submodule {
+					mayErr = true
+				}
+			}
+			if err != nil {
+				if !mayErr {
+					return "blobcache err without an unlisted submodule: " + err.Error()
+				}
+				return "" // refused as configured: the run stops here
+			}
+			if mustErr {
+				return fmt.Sprintf("c%d: the submodule dir/sm2 is not listed in .gitmodules, FailOnMissingSubmodules is set, and BlobCache accepted it", c)
+			}
+		}
 		if err != nil {
 			return "blobcache err " + err.Error()
 		}
